@@ -67,9 +67,9 @@ class DataFrame(Entity, DataSet):
             row_tuple = tuple(row_list)
             new_da.append(row_tuple)
         farr = np.ascontiguousarray(new_da, dtype=dt)
+        n_rows = self.shape[0]
         del self._h5group.group['data']
-        self._h5group.group['data'] = farr
-        self._h5group.create_dataset("data", (self.shape[0],), dt)
+        self._h5group.create_dataset("data", (n_rows,), dt)
         self.write_direct(farr)
 
     def append_rows(self, data):
